@@ -6,6 +6,7 @@
   IEEE doubles enter only through the correspondence check (harness/props/c05.py).
 -/
 import SkyllhModel.Model.EvSel
+import SkyllhModel.Model.EvSelR7
 import SkyllhModel.Proofs.EvSel
 import SkyllhModel.Proofs.EvSelCrit
 import SkyllhModel.Generated.C05
@@ -1733,3 +1734,440 @@ example : C05.IsArgsort ([3, 1, 2, 1] : List Nat) (argsortStable [3, 1, 2, 1]) :
 -- hypothesis of c05_ra_band_method: right ascensions in [0, 2π]
 example : |(6.2 : ℝ) - 0.1| ≤ 2 * Real.pi := by
   rw [abs_of_pos (by norm_num)]; have := Real.pi_gt_d2; norm_num at this ⊢; linarith
+
+/-! ## Round 7: the readers of the stored table (`Model/EvSelR7.lean`) -/
+
+namespace C05
+
+theorem countEq_cons (s : Nat) (t : List Nat) (k : Nat) :
+    countEq (s :: t) k = (if s = k then 1 else 0) + countEq t k := by
+  unfold countEq
+  by_cases h : s = k
+  · simp [h]; omega
+  · simp [h]
+
+theorem sorted_split (src : List Nat) (k0 : Nat) (hs : src.Pairwise (· ≤ ·)) (hlo : ∀ s ∈ src, k0 ≤ s) :
+    src = List.replicate (countEq src k0) k0 ++ src.filter (fun s => decide (k0 < s)) := by
+  induction src with
+  | nil => simp [countEq]
+  | cons s t ih =>
+    have hs' := List.pairwise_cons.mp hs
+    have iht := ih hs'.2 (fun x hx => hlo x (List.mem_cons_of_mem _ hx))
+    by_cases h : s = k0
+    · subst h
+      rw [countEq_cons]
+      simp only [if_true]
+      rw [Nat.add_comm, List.replicate_succ]
+      simp only [List.cons_append, List.filter_cons, Nat.lt_irrefl, decide_false]
+      exact congrArg _ iht
+    · have hlt : k0 < s := lt_of_le_of_ne (hlo s List.mem_cons_self) (Ne.symm h)
+      have hall : ∀ x ∈ t, k0 < x := fun x hx => lt_of_lt_of_le hlt (hs'.1 x hx)
+      have hc : countEq (s :: t) k0 = 0 := by
+        unfold countEq
+        rw [List.length_eq_zero_iff, List.filter_eq_nil_iff]
+        intro x hx
+        rcases List.mem_cons.mp hx with rfl | hx
+        · simpa using h
+        · simpa using (hall x hx).ne'
+      rw [hc]
+      simp only [List.replicate_zero, List.nil_append]
+      symm
+      rw [List.filter_eq_self]
+      intro x hx
+      rcases List.mem_cons.mp hx with rfl | hx
+      · simpa using hlt
+      · simpa using hall x hx
+
+theorem bcastLoop_congr {α : Type} (src src' : List Nat) (k1 : Nat) (as : List α)
+    (h : ∀ k, k1 ≤ k → countEq src k = countEq src' k) : bcastLoop src k1 as = bcastLoop src' k1 as := by
+  induction as generalizing k1 with
+  | nil => rfl
+  | cons a as ih =>
+    simp only [bcastLoop]
+    rw [h k1 (le_refl _), ih (k1 + 1) (fun k hk => h k (by omega))]
+
+theorem countEq_filter_gt (src : List Nat) (k0 k : Nat) (hk : k0 < k) :
+    countEq (src.filter (fun s => decide (k0 < s))) k = countEq src k := by
+  unfold countEq
+  rw [List.filter_filter]
+  congr 1
+  apply List.filter_congr
+  intro x _
+  by_cases hx : x = k <;> simp [hx, hk]
+
+/-- the run-length loop writes, for a source column that is non-decreasing and inside
+`[k0, k0 + len(arr))`, at every value position the array entry of that value's own source -/
+theorem bcastLoop_spec {α : Type} (arr : List α) (src : List Nat) (k0 : Nat)
+    (hs : src.Pairwise (· ≤ ·)) (hb : ∀ s ∈ src, k0 ≤ s ∧ s < k0 + arr.length) :
+    (bcastLoop src k0 arr).map some = src.map (fun s => arr[s - k0]?) := by
+  induction arr generalizing src k0 with
+  | nil =>
+    cases src with
+    | nil => rfl
+    | cons s t =>
+      have := hb s List.mem_cons_self
+      simp at this
+      omega
+  | cons a as ih =>
+    have hsplit := sorted_split src k0 hs (fun s h => (hb s h).1)
+    have hrs : (src.filter (fun s => decide (k0 < s))).Pairwise (· ≤ ·) := hs.filter _
+    have hrb : ∀ s ∈ src.filter (fun s => decide (k0 < s)), k0 + 1 ≤ s ∧ s < k0 + 1 + as.length := by
+      intro s h
+      have h1 := List.mem_filter.mp h
+      have h2 := hb s h1.1
+      have h3 : k0 < s := by simpa using h1.2
+      simp only [List.length_cons] at h2
+      omega
+    have hih := ih _ (k0 + 1) hrs hrb
+    have hR : src.map (fun s => (a :: as)[s - k0]?) =
+        (List.replicate (countEq src k0) k0 ++ src.filter (fun s => decide (k0 < s))).map
+          (fun s => (a :: as)[s - k0]?) := congrArg _ hsplit
+    rw [hR]
+    simp only [bcastLoop, List.map_append, List.map_replicate]
+    rw [bcastLoop_congr src _ (k0 + 1) as (fun k hk => (countEq_filter_gt src k0 k (by omega)).symm), hih]
+    congr 1
+    · simp
+    · apply List.map_congr_left
+      intro s h
+      have h1 := (hrb s h).1
+      have h2 : s - k0 = (s - (k0 + 1)) + 1 := by omega
+      rw [h2]
+      simp
+
+/-- what the readers of the stored table rely on: source column non-decreasing (grouped by ascending
+source), source indices below the number of sources, event indices below the number of events held -/
+structure Grouped (K n : Nat) (P : Pairs) : Prop where
+  grouped : (P.map Prod.fst).Pairwise (· ≤ ·)
+  bound : ∀ p ∈ P, p.1 < K ∧ p.2 < n
+
+theorem lexLt_sorted_grouped {P : Pairs} (h : P.Pairwise lexLt) : (P.map Prod.fst).Pairwise (· ≤ ·) := by
+  rw [List.pairwise_map]
+  exact h.imp (fun hab => lexLt_fst_le hab)
+
+theorem ValidTable.grouped {K n : Nat} {P : Pairs} (h : ValidTable K n P) : Grouped K n P :=
+  ⟨lexLt_sorted_grouped h.sorted, h.bound⟩
+
+end C05
+
+/-- **Per-source arrays reach the right values** (`broadcast_sources_array_to_values_array`): for a table
+that is grouped by ascending source with source indices `< K`, and an array with one entry per source,
+the run-length construction of the code never fails, leaves no entry of the `np.empty` output unwritten,
+and puts at every value position `v` the entry of the source `src_idxs[v]` of that value. -/
+theorem c05_bcast_sources_exact {α : Type} (K n : Nat) (P : Pairs) (h : C05.Grouped K n P) (arr : List α)
+    (hl : arr.length = K) :
+    bcastSources K (some P) arr = .ok (P.map (fun p => arr[p.1]?)) ∧ ∀ p ∈ P, ∃ a, arr[p.1]? = some a := by
+  have hdef : ∀ p ∈ P, ∃ a, arr[p.1]? = some a := by
+    intro p hp
+    have := (h.bound p hp).1
+    exact ⟨arr[p.1]'(by omega), List.getElem?_eq_getElem (by omega)⟩
+  refine ⟨?_, hdef⟩
+  have hspec := C05.bcastLoop_spec arr (P.map Prod.fst) 0 h.grouped (by
+    intro s hs
+    obtain ⟨p, hp, rfl⟩ := List.mem_map.mp hs
+    have := (h.bound p hp).1
+    omega)
+  have hspec' : (bcastLoop (P.map Prod.fst) 0 arr).map some = P.map (fun p => arr[p.1]?) := by
+    rw [hspec, List.map_map]; rfl
+  have hlen : (bcastLoop (P.map Prod.fst) 0 arr).length = P.length := by
+    have := congrArg List.length hspec'
+    simpa using this
+  match arr, hl, hspec', hlen with
+  | [a], hl, _, _ =>
+    simp only [bcastSources]
+    congr 1
+    symm
+    rw [List.eq_replicate_iff]
+    refine ⟨by simp, ?_⟩
+    intro b hb
+    obtain ⟨p, hp, rfl⟩ := List.mem_map.mp hb
+    have := (h.bound p hp).1
+    have h0 : p.1 = 0 := by simp at hl; omega
+    simp [h0]
+  | [], hl, hspec', hlen =>
+    simp only [bcastSources, List.length_nil, hl.symm]
+    simp only [bne_self_eq_false, Bool.false_eq_true, if_false]
+    rw [hspec', hlen]; simp
+  | a :: b :: t, hl, hspec', hlen =>
+    simp only [bcastSources, hl]
+    simp only [bne_self_eq_false, Bool.false_eq_true, if_false]
+    rw [hspec', hlen]; simp
+
+/-- a scalar (length-1 array) is broadcast to every value whatever the table looks like -/
+theorem c05_bcast_sources_scalar {α : Type} (K : Nat) (P : Pairs) (a : α) :
+    bcastSources K (some P) [a] = .ok (List.replicate P.length (some a)) := rfl
+
+/-- **The grouping is needed** — for a table that lists the same pairs but not grouped by ascending source
+the run-length construction hands source 0's value to a value of source 1. -/
+theorem c05_bcast_sources_needs_grouping_counterexample :
+    bcastSources 2 (some [(1, 0), (0, 0)]) [10, 20] = .ok [some 10, some 20] ∧
+      ([(1, 0), (0, 0)] : Pairs).map (fun p => [10, 20][p.1]?) = [some 20, some 10] := by decide
+
+/-- **Per-event arrays reach the right values** (`broadcast_selected_events_arrays_to_values_arrays`): with
+event indices below the number of events held and an array with one entry per event held, `np.take`
+does not fail and value `v` gets the entry of its own event `evt_idxs[v]`. -/
+theorem c05_bcast_selected_exact {α : Type} (K n : Nat) (P : Pairs) (h : C05.Grouped K n P) (a : List α)
+    (hl : a.length = n) :
+    ∃ o, bcastSelected1 P a = .ok o ∧ o.map some = P.map (fun p => a[p.2]?) ∧ o.length = P.length := by
+  obtain ⟨o, ho⟩ := C05.take_some_of_bound a (P.map Prod.snd) (by
+    intro i hi
+    obtain ⟨p, hp, rfl⟩ := List.mem_map.mp hi
+    have := (h.bound p hp).2
+    omega)
+  have hlen : o.length = P.length := by rw [take_length ho, List.length_map]
+  refine ⟨o, by simp only [bcastSelected1, ho], ?_, hlen⟩
+  apply List.ext_getElem?
+  intro j
+  rw [List.getElem?_map, take_getElem? ho j, List.getElem?_map, List.getElem?_map]
+  cases hP : P[j]? with
+  | none => simp
+  | some p =>
+    have hp : p ∈ P := List.mem_of_getElem? hP
+    have hb : p.2 < a.length := by have := (h.bound p hp).2; omega
+    simp [List.getElem?_eq_getElem hb]
+
+/-- the list form: every array of the sequence is handled as above, in order -/
+theorem c05_bcast_selected_many {α : Type} (K n : Nat) (P : Pairs) (h : C05.Grouped K n P)
+    (arrs : List (List α)) (hl : ∀ a ∈ arrs, a.length = n) :
+    ∃ os, bcastSelected (some P) arrs = .ok os ∧
+      List.Forall₂ (fun a o => o.map some = P.map (fun p => a[p.2]?)) arrs os := by
+  induction arrs with
+  | nil => exact ⟨[], rfl, List.Forall₂.nil⟩
+  | cons a t ih =>
+    obtain ⟨os, hos, hf⟩ := ih (fun x hx => hl x (List.mem_cons_of_mem _ hx))
+    obtain ⟨o, ho, hspec, _⟩ := c05_bcast_selected_exact K n P h a (hl a List.mem_cons_self)
+    refine ⟨o :: os, ?_, List.Forall₂.cons hspec hf⟩
+    simp only [bcastSelected] at hos ⊢
+    simp only [List.mapM_cons, ho, hos]
+    rfl
+
+namespace C05
+
+theorem valuesMask_fold (src sel : List Nat) (acc : List Bool) (hl : acc.length = src.length) :
+    sel.foldl (fun vm k => List.zipWith (fun a b => a || b) vm (src.map (fun s => s == k))) acc
+      = List.zipWith (fun a b => a || b) acc (src.map (fun s => sel.any (fun k => s == k))) := by
+  induction sel generalizing acc with
+  | nil =>
+    apply List.ext_getElem?
+    intro j
+    simp only [List.foldl_nil, List.any_nil, List.getElem?_zipWith, List.getElem?_map]
+    by_cases hj : j < acc.length
+    · have hj' : j < src.length := by omega
+      simp [List.getElem?_eq_getElem hj, List.getElem?_eq_getElem hj']
+    · simp [List.getElem?_eq_none (by omega : acc.length ≤ j)]
+  | cons k ks ih =>
+    simp only [List.foldl_cons]
+    rw [ih _ (by simp [hl])]
+    apply List.ext_getElem?
+    intro j
+    simp only [List.getElem?_zipWith, List.getElem?_map, List.any_cons]
+    by_cases hj : j < acc.length
+    · have hj' : j < src.length := by omega
+      simp [List.getElem?_eq_getElem hj, List.getElem?_eq_getElem hj', Bool.or_assoc]
+    · simp [List.getElem?_eq_none (by omega : acc.length ≤ j)]
+
+theorem compress_range_any (m : List Bool) (s : Nat) (hs : s < m.length) :
+    (compress m (List.range m.length)).any (fun k => s == k) = m[s] := by
+  have hm : m = (List.range m.length).map (fun i => m[i]?.getD false) := by
+    apply List.ext_getElem?
+    intro j
+    by_cases hj : j < m.length
+    · simp [hj]
+    · simp [hj]
+  have hc : compress m (List.range m.length) = (List.range m.length).filter (fun i => m[i]?.getD false) := by
+    conv_lhs => rw [hm]
+    simpa using compress_map (fun i => m[i]?.getD false) (List.range m.length)
+  rw [hc]
+  cases hb : m[s] with
+  | true =>
+    rw [List.any_eq_true]
+    exact ⟨s, List.mem_filter.mpr ⟨List.mem_range.mpr hs, by simp [List.getElem?_eq_getElem hs, hb]⟩, by simp⟩
+  | false =>
+    rw [List.any_eq_false]
+    intro k hk
+    have hk2 := (List.mem_filter.mp hk).2
+    intro hsk
+    have : s = k := by simpa using hsk
+    subst this
+    simp [List.getElem?_eq_getElem hs, hb] at hk2
+
+end C05
+
+/-- **Source masks reach the right values** (`get_values_mask_for_source_mask`): for source indices `< K`
+and a mask with one entry per source the `|=` loop does not fail and marks value `v` iff its own source
+`src_idxs[v]` is masked (no grouping needed here). -/
+theorem c05_values_mask_exact (K n : Nat) (P : Pairs) (hb : ∀ p ∈ P, p.1 < K ∧ p.2 < n) (m : List Bool)
+    (hl : m.length = K) :
+    ∃ vm, valuesMask K (some P) m = .ok vm ∧ vm.map some = P.map (fun p => m[p.1]?) := by
+  subst hl
+  refine ⟨(compress m (List.range m.length)).foldl
+      (fun vm k => List.zipWith (fun a b => a || b) vm ((P.map Prod.fst).map (fun s => s == k)))
+      (List.replicate P.length false),
+    by simp only [valuesMask, bne_self_eq_false, Bool.false_eq_true, if_false], ?_⟩
+  rw [C05.valuesMask_fold _ _ _ (by simp)]
+  apply List.ext_getElem?
+  intro j
+  simp only [List.getElem?_map, List.getElem?_zipWith, List.getElem?_replicate]
+  cases hP : P[j]? with
+  | none => simp
+  | some p =>
+    have hp : p ∈ P := List.mem_of_getElem? hP
+    have hj : j < P.length := (List.getElem?_eq_some_iff.mp hP).1
+    have hs := (hb p hp).1
+    simp [hj, C05.compress_range_any m p.1 hs, List.getElem?_eq_getElem hs]
+
+/-- **The stored table fits its readers**: after `initialize_trial` — without selection, or with any sound
+selection method, with or without index field (any permutation-valued argsort) — the stored table is
+grouped by ascending source with source indices below `n_sources` and event indices below the number of
+events held. -/
+theorem c05_tdm_table_grouped {ε : Type} (K : Nat) (evs : List ε) (sel : Option (Method ε))
+    (hm : ∀ m, sel = some m → C05.Sound K m) (argsort : Option (List ε → List Nat))
+    (hσ : ∀ f evs', argsort = some f → (f evs').Perm (List.range evs'.length)) :
+    ∃ t, initTrial K evs sel argsort = some t ∧ C05.Grouped K t.events.length t.pairs := by
+  cases sel with
+  | none =>
+    obtain ⟨t, ht, hlen, _, hmem, hsort, _, _⟩ := c05_tdm_default_map K evs argsort (fun f hf => hσ f evs hf)
+    refine ⟨t, ht, C05.lexLt_sorted_grouped hsort, ?_⟩
+    rintro ⟨k, i⟩ hp
+    have := (hmem k i).mp hp
+    exact ⟨this.1, by rw [hlen]; exact this.2⟩
+  | some m =>
+    obtain ⟨r, t, τ, _, hv, ht, _, _, _, hfst, _, hbound, _, _⟩ := c05_tdm_select_sort K evs m (hm m rfl) argsort hσ
+    refine ⟨t, ht, ?_, hbound⟩
+    rw [hfst]
+    exact C05.lexLt_sorted_grouped hv.table.sorted
+
+/-- **End to end**: after `initialize_trial` every reader of the table succeeds and hands each value the
+entry of its own source / its own event / its own source's mask bit. -/
+theorem c05_tdm_consumers {ε α : Type} (K : Nat) (evs : List ε) (sel : Option (Method ε))
+    (hm : ∀ m, sel = some m → C05.Sound K m) (argsort : Option (List ε → List Nat))
+    (hσ : ∀ f evs', argsort = some f → (f evs').Perm (List.range evs'.length)) :
+    ∃ t, initTrial K evs sel argsort = some t ∧
+      (∀ arr : List α, arr.length = K → bcastSources K (some t.pairs) arr = .ok (t.pairs.map (fun p => arr[p.1]?))) ∧
+      (∀ a : List α, a.length = t.events.length →
+        ∃ o, bcastSelected1 t.pairs a = .ok o ∧ o.map some = t.pairs.map (fun p => a[p.2]?)) ∧
+      (∀ m : List Bool, m.length = K →
+        ∃ vm, valuesMask K (some t.pairs) m = .ok vm ∧ vm.map some = t.pairs.map (fun p => m[p.1]?)) := by
+  obtain ⟨t, ht, hg⟩ := c05_tdm_table_grouped K evs sel hm argsort hσ
+  refine ⟨t, ht, fun arr hl => (c05_bcast_sources_exact K _ t.pairs hg arr hl).1, ?_, ?_⟩
+  · intro a hl
+    obtain ⟨o, ho, hs, _⟩ := c05_bcast_selected_exact K _ t.pairs hg a hl
+    exact ⟨o, ho, hs⟩
+  · intro m hl
+    exact c05_values_mask_exact K _ t.pairs hg.bound m hl
+
+-- non-vacuity: a grouped table as produced by a selection, per-source / per-event arrays, a source mask
+example : C05.Grouped 2 3 [(0, 1), (0, 0), (1, 2)] := ⟨by decide, by decide⟩
+example : bcastSources 2 (some [(0, 1), (0, 0), (1, 2)]) [10, 20] = .ok [some 10, some 10, some 20] := by decide
+example : bcastSelected1 [(0, 1), (0, 0), (1, 2)] [7, 8, 9] = .ok [8, 7, 9] := by decide
+example : valuesMask 2 (some [(0, 1), (0, 0), (1, 2)]) [false, true] = .ok [false, false, true] := by decide
+-- a source index beyond the array leaves an unwritten entry of the np.empty output (outside the guard)
+example : bcastSources 2 (some [(0, 0), (2, 0)]) [10, 20] = .ok [some 10, none] := by decide
+example : bcastSources 2 (none : Option Pairs) [10, 20] = .error ConsErr.noTable := rfl
+example : bcastSources 2 (some [(0, 0)]) [10, 20, 30] = .error ConsErr.badLength := by decide
+
+/-- **The readers on the manager object, after any history**: whatever the manager held before, after a
+successful-by-construction `initialize_trial` (no selection, or a sound selection method; the index field of
+the object, if set, sorted by a permutation-valued argsort) the object's readers — which read the stored
+`_n_sources` and `_src_evt_idxs` — succeed and give every value the entry of its own source / own event /
+own source's mask bit. -/
+theorem c05_tdm_obj_readers {ε α : Type} (self : TdmObj ε) (K : Nat) (evs : List ε) (sel : Option (Method ε))
+    (hm : ∀ m, sel = some m → C05.Sound K m) (nEv : Option Nat)
+    (hσ : ∀ f evs', self.sortBy = some f → (f evs').Perm (List.range evs'.length)) :
+    ∃ s P, self.initialize K evs sel nEv = some s ∧ s.srcEvtIdxs = some P ∧ s.nSources = K ∧
+      C05.Grouped K s.nSelected P ∧ s.nValues = some P.length ∧
+      (∀ arr : List α, arr.length = K → s.readSources arr = .ok (P.map (fun p => arr[p.1]?))) ∧
+      (∀ a : List α, a.length = s.nSelected →
+        ∃ o, s.readSelected [a] = .ok [o] ∧ o.map some = P.map (fun p => a[p.2]?)) ∧
+      (∀ m : List Bool, m.length = K →
+        ∃ vm, s.readValuesMask m = .ok vm ∧ vm.map some = P.map (fun p => m[p.1]?)) := by
+  obtain ⟨t, ht, hg⟩ := c05_tdm_table_grouped K evs sel hm self.sortBy hσ
+  refine ⟨({ events := t.events, srcEvtIdxs := some t.pairs, nSources := K, nEvents := statedN nEv evs.length, sortBy := self.sortBy } : TdmObj ε),
+    t.pairs, ?_, rfl, rfl, hg, rfl, ?_, ?_, ?_⟩
+  · simp only [TdmObj.initialize, c05_tdm_history_independent, ht, Option.map_some]
+  · intro arr hl
+    exact (c05_bcast_sources_exact K _ t.pairs hg arr hl).1
+  · intro a hl
+    obtain ⟨o, ho, hs, _⟩ := c05_bcast_selected_exact K _ t.pairs hg a hl
+    refine ⟨o, ?_, hs⟩
+    simp only [TdmObj.readSelected, bcastSelected, List.mapM_cons, List.mapM_nil, ho]
+    rfl
+  · intro m hl
+    exact c05_values_mask_exact K _ t.pairs hg.bound m hl
+
+example : ((TdmObj.fresh : TdmObj Nat).initialize 2 [7, 8, 9] none none).map
+    (fun s => (s.readSources [10, 20], s.readSelected [[1, 2, 3]], s.readValuesMask [false, true])) =
+    some (.ok [some 10, some 10, some 10, some 20, some 20, some 20], .ok [[1, 2, 3, 1, 2, 3]],
+      .ok [false, false, false, true, true, true]) := by decide
+-- a fresh manager has no table: every reader raises
+example : (TdmObj.fresh : TdmObj Nat).readSources [1, 2] = .error ConsErr.noTable := rfl
+
+/-- **Defaults of the current source**: `TrialDataManager()` followed by `initialize_trial(shg_mgr, pmm, events)`
+with every optional argument left at the default read from the current source (`n_events`, `evt_sel_method`,
+`index_field_name` — all `None`) stores the input events unchanged, the all-pairs table over them, the
+manager's number of sources and `n_events = len(events)`.  A changed default breaks this proof. -/
+theorem c05_tdm_defaults_for_current_source {ε : Type} (K : Nat) (evs : List ε) :
+    Gen.C05.evtSelDefaultIsNone = true ∧ Gen.C05.indexFieldDefaultIsNone = true ∧
+    (TdmObj.fresh : TdmObj ε).initialize K evs none Gen.C05.nEventsDefault =
+      some { events := evs, srcEvtIdxs := some (fullPairs K evs.length), nSources := K, nEvents := evs.length,
+             sortBy := none } := by
+  refine ⟨rfl, rfl, ?_⟩
+  simp [TdmObj.initialize, TdmObj.fresh, initTrialObj, Gen.C05.nEventsDefault, statedN, incTable, TdmObj.nSelected]
+
+/-- **`create_src_evt_mask` is the indicator matrix of the table**: for a table inside the shape (any order,
+duplicates allowed) the call does not fail, the matrix has `K` rows of `n` columns and `M[k][i]` is set iff
+`(k, i)` is listed; a table with an index outside the shape is rejected (IndexError). -/
+theorem c05_create_src_evt_mask_exact (K n : Nat) (P : Pairs) :
+    ((∀ p ∈ P, p.1 < K ∧ p.2 < n) →
+      ∃ M, incMask K n P = some M ∧ WF n M ∧ M.length = K ∧ ∀ k i, Entry M k i ↔ (k, i) ∈ P) ∧
+    ((¬ ∀ p ∈ P, p.1 < K ∧ p.2 < n) → incMask K n P = none) := by
+  constructor
+  · intro hb
+    obtain ⟨M, hM, hwf, hlen, hent⟩ := C05.scatter_some K n P (P.map (fun _ => true)) hb
+    refine ⟨M, hM, hwf, hlen, ?_⟩
+    intro k i
+    rw [hent k i, C05.zip_map_self]
+    constructor
+    · rintro ⟨_, _, pb, hpb, h1, _⟩
+      obtain ⟨p, hp, rfl⟩ := List.mem_map.mp hpb
+      simpa [← h1] using hp
+    · intro h
+      have := hb _ h
+      exact ⟨this.1, this.2, ((k, i), true), List.mem_map.mpr ⟨(k, i), h, rfl⟩, rfl, rfl⟩
+  · intro hb
+    unfold incMask scatter
+    rw [if_neg]
+    intro hall
+    apply hb
+    simpa only [List.all_eq_true, Bool.and_eq_true, decide_eq_true_eq] using hall
+
+example : incMask 2 3 [(1, 2), (0, 0), (1, 2)] = some [[true, false, false], [false, false, true]] := by decide
+example : incMask 2 3 [(2, 0)] = none := by decide
+
+/-- **A rejected change of an intersection changes nothing** (two-phase check): the call raises iff one of
+the sub-methods rejects the manager, then both sub-method objects are exactly what they were (so the next
+`select_events` is the one before the call); otherwise both hold the new manager with its current sources,
+as `chainChange` (`c05_esm_chain_change`). -/
+theorem c05_esm_chain_rejected_change_atomic {S : Type} (acc1 acc2 : Bool) (o : EsmObj S × EsmObj S) (id : Nat)
+    (srcs : List S) :
+    ((chainChangeChecked true acc1 acc2 o id srcs).2 = true ↔ (acc1 = false ∨ acc2 = false)) ∧
+    ((chainChangeChecked true acc1 acc2 o id srcs).2 = true → (chainChangeChecked true acc1 acc2 o id srcs).1 = o) ∧
+    ((chainChangeChecked true acc1 acc2 o id srcs).2 = false →
+      (chainChangeChecked true acc1 acc2 o id srcs).1 = chainChange false true o id srcs) := by
+  cases acc1 <;> cases acc2 <;> simp [chainChangeChecked, chainChange]
+
+/-- what the one-phase code (sub-method 1 changed, then sub-method 2 asked) would have to satisfy -/
+def c05_esm_chain_rejected_unfixed_statement : Prop :=
+  ∀ (acc1 acc2 : Bool) (o : EsmObj Nat × EsmObj Nat) (id : Nat) (srcs : List Nat),
+    (chainChangeChecked false acc1 acc2 o id srcs).2 = true → (chainChangeChecked false acc1 acc2 o id srcs).1 = o
+
+/-- `DecBand & PsiFunc` on one source, `change_shg_mgr` to a manager with three sources: PsiFunc rejects, but
+DecBand already holds the three sources (the next `select_events` raised an IndexError) -/
+theorem c05_esm_chain_rejected_unfixed_counterexample : ¬ c05_esm_chain_rejected_unfixed_statement := by
+  intro h
+  have := h true false ({ shgId := 0, srcArr := [1] }, { shgId := 0, srcArr := [1] }) 1 [1, 2, 3] (by decide)
+  revert this
+  simp [chainChangeChecked, EsmObj.changeShgMgr]
+
+-- non-vacuity: a rejected and an accepted call
+example : chainChangeChecked true true false (({ shgId := 0, srcArr := [1] } : EsmObj Nat), ({ shgId := 0, srcArr := [1] } : EsmObj Nat)) 1 [1, 2, 3]
+    = ((({ shgId := 0, srcArr := [1] } : EsmObj Nat), ({ shgId := 0, srcArr := [1] } : EsmObj Nat)), true) := rfl
